@@ -256,7 +256,11 @@ def xff_elements(chk, prog, cfg, rule, fn="humphrey::http::address::Address::fro
                f"the address is silently skipped and origin/proxies are wrong", where=c.where(blk), cfg=cfg)
         odd = sorted(set(x[1] for x in desc_calls(d) if not core.re.search(XFF_OK, x[1])))
         direct = c.path.startswith(fn + "::{closure") or c.path == fn
-        is_elem = desc_contains(d, lambda x: x[0] == "param") and direct
+        # the element: the adaptor closure's parameter, or (loop form) the item produced by iterating the split
+        is_elem = direct and (desc_contains(d, lambda x: x[0] == "param") and c.kind == "closure" or
+                              desc_contains(d, lambda x: x[0] == "call" and core.re.search(r"Iterator>?::next$|Iterator::next$", x[1]) is not None and
+                                            desc_contains(x[2], lambda z: z[0] == "call" and z[1].endswith("<impl str>::split"))))
+        odd = [x for x in odd if not core.re.search(r"Iterator>?::next$|Iterator::next$|IntoIterator>?::into_iter$|<impl str>::split$|Headers::get$|Try>?::branch$", x)]
         chk.ob(rule, fn, "the element reaches IpAddr::from_str through trimming only (no port / bracket / prefix surgery)", not odd and is_elem,
                f"the element is rewritten by {[core.short(x) for x in odd]} in {core.short(c.path)} before it is parsed: addresses that the rewrite mangles "
                "(e.g. `::1` split at its last ':') are silently dropped from origin/proxies, so a blacklisted forwarded-for address is not seen",
@@ -264,8 +268,17 @@ def xff_elements(chk, prog, cfg, rule, fn="humphrey::http::address::Address::fro
     # nothing but the parse decides which elements are kept
     fm = [(blk, t) for blk, t in b.calls_to(r"Iterator::filter_map$|Iterator::filter$|Iterator::take$|Iterator::skip$|Iterator::take_while$|Iterator::skip_while$|Iterator::step_by$|Iterator::map$|Iterator::flat_map$|Iterator::map_while$|Iterator::scan$")]
     keep = [t["callee"].split("::")[-1] for blk, t in fm]
-    chk.ob(rule, fn, "elements are dropped only when IpAddr::from_str rejects them and recorded as parsed (single filter_map over the split, no re-mapping)", keep == ["filter_map"],
-           f"adaptors on the element list: {keep}", cfg=cfg)
+    loop_ok = False
+    if not keep:
+        # loop form: every element whose parse is Ok is pushed, as parsed
+        for c, blk, t in sites:
+            for pb, pt in c.calls_to(r"Vec::<T, A>::push$"):
+                v = describe(prog, c, pt["args"][1])
+                under_ok = any(lab == "Ok" and desc_contains(dd, lambda y: y[0] == "call" and len(y) > 3 and y[3] == blk) for s_, lab, dd, info in core.guards_dominating(prog, c, pb))
+                if under_ok and desc_contains(v, lambda y: y[0] == "call" and len(y) > 3 and y[3] == blk) and not [x for x in desc_calls(v) if not (core.re.search(r"from_str$|::parse$|Iterator>?::next$|IntoIterator>?::into_iter$|<impl str>::split$|Headers::get$|Try>?::branch$", x[1]) or core.re.search(XFF_OK, x[1]))]:
+                    loop_ok = True
+    chk.ob(rule, fn, "elements are dropped only when IpAddr::from_str rejects them and recorded as parsed (single filter_map over the split, no re-mapping)", keep == ["filter_map"] or loop_ok,
+           f"adaptors on the element list: {keep}; loop form: {loop_ok}", cfg=cfg)
 
 
 def cookies(chk, prog, cfg):
@@ -338,7 +351,7 @@ def address(chk, prog, cfg):
     for blk_i, rv in aggs:
         origin = describe(prog, b, rv["ops"][idx["origin_addr"]])
         port = describe(prog, b, rv["ops"][idx["port"]])
-        chk.ob("R6.origin", fn, "origin_addr <- last listed address", desc_contains(origin, lambda x: x[0] == "call" and x[1].endswith("::last")),
+        chk.ob("R6.origin", fn, "origin_addr <- last listed address", desc_contains(origin, lambda x: x[0] == "call" and core.re.search(r"(<impl \[T\]>::last|Vec::<T, A>::pop|<impl \[T\]>::split_last)$", x[1]) is not None),
                f"origin is {origin}", where=b.where(blk_i), cfg=cfg)
         chk.ob("R6.port", fn, "port <- peer socket", desc_contains(port, lambda x: x[0] == "call" and x[1].endswith("SocketAddr::port")),
                f"port is {port}", where=b.where(blk_i), cfg=cfg)
